@@ -21,7 +21,9 @@ class World(CollectionWorld):
 
 class Scenario(object):
 
-    def __init__(self, start='empty', modes=MODES, n_states=2, roi=True, max_undo=None, names=('d0', 'd1')):
+    def __init__(self, start='empty', modes=MODES, n_states=2, roi=True, max_undo=None, names=('d0', 'd1'),
+                 session_mode=None):
+        self.session_mode = session_mode      # the session's own edit mode (used when no override is given)
         self.start = start
         self.modes = modes
         self.n_states = n_states
@@ -35,7 +37,10 @@ class Scenario(object):
             kw.update(groups0=1, edit0=True)
         elif self.start == 'group-not-edited':
             kw.update(groups0=1, edit0=False)
-        return World(**kw)
+        w = World(**kw)
+        if self.session_mode:
+            w.mode.mode = mode_by_name(self.session_mode)
+        return w
 
     def opname(self, op):
         return ':'.join(str(x) for x in op)
@@ -136,12 +141,16 @@ def tiers(tier):
     if tier == 'quick':
         return [('empty', Scenario('empty', modes=few, n_states=1), 5),
                 ('group-edited', Scenario('group-edited', modes=MODES, n_states=1, roi=False, names=('d1',)), 4),
+                ('session-new-mode', Scenario('group-edited', modes=['AndMode'], n_states=1, names=('d1',),
+                                              session_mode='NewMode'), 4),
                 ('max-undo-2', Scenario('group-not-edited', modes=['OrMode'], n_states=1, roi=False,
                                         max_undo=2, names=('d1',)), 6)]
     return [('empty', Scenario('empty', modes=MODES, n_states=1), 5),
             ('empty-two-states', Scenario('empty', modes=few, n_states=2), 5),
             ('group-edited', Scenario('group-edited', modes=MODES, n_states=1), 5),
             ('group-not-edited', Scenario('group-not-edited', modes=few, n_states=1), 6),
+            ('session-new-mode', Scenario('group-edited', modes=few, n_states=1, session_mode='NewMode'), 5),
+            ('session-xor-mode', Scenario('empty', modes=['NewMode'], n_states=2, session_mode='XorMode'), 5),
             ('max-undo-2', Scenario('group-not-edited', modes=['OrMode', 'NewMode'], n_states=1, roi=False,
                                     max_undo=2, names=('d1',)), 8)]
 
